@@ -25,6 +25,7 @@ VARIANTS = {
               '-O1 -g -fno-omit-frame-pointer ' + SANFLAGS),
     'fast':  ('gcc', '-O2 -g -D' + GUARD, '-O2 -g'),
     'nosse': ('gcc', '-O2 -g -U__SSE2__ -D' + GUARD, '-O2 -g'),
+    'vg':    ('gcc', '-O1 -g -fno-omit-frame-pointer -D' + GUARD, '-O1 -g -fno-omit-frame-pointer -DVH_VALGRIND'),   # run under valgrind memcheck
 }
 CMAKE_OFF = ['-DBUILD_TESTING=OFF', '-DBUILD_PROGRAMS=OFF', '-DBUILD_EXAMPLES=OFF', '-DBUILD_REGTEST=OFF',
              '-DENABLE_CPACK=OFF', '-DENABLE_PACKAGE_CONFIG=OFF', '-DENABLE_EXTERNAL_LIBS=OFF', '-DENABLE_MPEG=OFF',
@@ -162,6 +163,53 @@ def parse_sanitizer(text):
     return sig, sorted(set(ub))
 
 
+VGHEAD = re.compile(r'^==\d+== (?!   )(\S.*)$')
+VGFRAME = re.compile(r'^==\d+==    (?:at|by) 0x[0-9A-Fa-f]+: (\S+) \((?:in )?([^)]*)\)')
+VGMARK = re.compile(r'^\*\*\d+\*\* VH-CASE (\d+) ?(.*)$')
+
+
+def parse_memcheck(text):
+    """valgrind log -> [(case, desc, signature, block text)]; error blocks are attributed to the next VH-CASE marker"""
+    out, pending = [], []
+    cur = None
+    for l in text.splitlines():
+        m = VGMARK.match(l)
+        if m:
+            if cur:
+                pending.append(cur)
+                cur = None
+            for b in pending:
+                out.append((int(m.group(1)), m.group(2), b['sig'](), '\n'.join(b['lines'][:14])))
+            pending = []
+            continue
+        h = VGHEAD.match(l)
+        if h:
+            txt = h.group(1)
+            if re.match(r'(Conditional jump|Use of uninitialised|Invalid (read|write|free)|Syscall param|Source and destination overlap|Mismatched free|Argument .* of function)', txt):
+                if cur:
+                    pending.append(cur)
+                kind = re.sub(r'\d+', 'N', txt.split(' points to')[0]).replace(' ', '-')[:60]
+                cur = {'kind': kind, 'frames': [], 'hframes': [], 'lines': [l.split('== ', 1)[-1]]}
+                cur['sig'] = (lambda c=cur: c['kind'] + '|' + ('<'.join(c['frames'][:3]) if c['frames'] else 'harness:' + '<'.join(c['hframes'][:2])))
+            elif cur is not None:
+                cur['lines'].append(txt)
+            continue
+        f = VGFRAME.match(l)
+        if f and cur is not None:
+            fn, loc = f.group(1), f.group(2)
+            cur['lines'].append(l.split('== ', 1)[-1].strip())
+            srcf = loc.split(':')[0]
+            if os.path.exists(os.path.join(REPO, 'src', srcf)) or any(os.path.exists(os.path.join(REPO, 'src', d, srcf)) for d in ('ALAC', 'GSM610', 'G72x')):
+                cur['frames'].append(fn)
+            elif len(cur['frames']) == 0:
+                cur['hframes'].append(fn)
+    if cur:
+        pending.append(cur)
+    for b in pending:
+        out.append((-1, '', b['sig'](), '\n'.join(b['lines'][:14])))
+    return out
+
+
 # ------------------------------------------------------------------ running shards
 class Agg:
     def __init__(self):
@@ -181,7 +229,7 @@ class Agg:
             v['count'] += 1
 
 
-def run_shard(agg, exe, variant, shard, nshards, tier, seed, extra, scratch, env, timeout, only=None):
+def run_shard(agg, exe, variant, shard, nshards, tier, seed, extra, scratch, env, timeout, only=None, tool=None):
     start = 0
     restarts = 0
     hang_retry = {}
@@ -192,6 +240,10 @@ def run_shard(agg, exe, variant, shard, nshards, tier, seed, extra, scratch, env
                '--from', str(start)] + extra
         if only is not None:
             cmd += ['--only', str(only)]
+        vglog = outp + '.vg'
+        if tool == 'memcheck':
+            cmd = ['valgrind', '--tool=memcheck', '-q', '--error-exitcode=0', '--error-limit=no', '--leak-check=no', '--num-callers=14',
+                   '--undef-value-errors=yes', '--track-origins=no', '--log-file=' + vglog] + cmd
         t0 = time.time()
         with open(errp, 'w') as ef:
             try:
@@ -239,6 +291,10 @@ def run_shard(agg, exe, variant, shard, nshards, tier, seed, extra, scratch, env
         errtxt = open(errp, errors='replace').read() if os.path.exists(errp) else ''
         sig, ub = parse_sanitizer(errtxt)
         prop = extra_prop(extra)
+        if tool == 'memcheck' and os.path.exists(vglog):
+            for (vc, vdesc, vsig, vtxt) in parse_memcheck(open(vglog, errors='replace').read()):
+                agg.add_viol('%s|memcheck|%s' % (prop, vsig), {'monitor': os.path.basename(exe), 'variant': variant, 'case': vc, 'desc': vdesc,
+                                                               'witness': vtxt[:1500], 'tier': tier, 'seed': seed, 'extra': extra, 'tool': 'memcheck'})
         for k in ub:
             agg.add_viol('%s|%s' % (prop, k), {'monitor': os.path.basename(exe), 'variant': variant, 'case': crash['case'] if crash else -1,
                                           'desc': 'UBSan report on stderr', 'witness': k, 'tier': tier, 'seed': seed, 'extra': extra})
@@ -337,10 +393,10 @@ def run_property(prop, tier, seed, only=None, only_mon=None, verbose=False):
         for r, exe in runs:
             ns = 1 if only is not None else r.get('shards', NCPU)
             for s in range(ns):
-                extra = list(r.get('args', []))
+                extra = list(r.get('args_' + tier, r.get('args', [])))
                 if verbose or only is not None:
                     extra.append('--verbose')
-                th = threading.Thread(target=run_shard, args=(agg, exe, r.get('variant', 'asan'), s, ns, tier, seed, extra, scratch, env, timeout, only))
+                th = threading.Thread(target=run_shard, args=(agg, exe, r.get('variant', 'asan'), s, ns, tier, seed, extra, scratch, env, timeout, only, r.get('tool')))
                 threads.append(th)
         # at most NCPU processes at a time
         running = []
